@@ -189,7 +189,7 @@ theorem nt_handleFind (s : Stack) (e : SDEntry) (a : Addr) (mc : Bool) (hi : NT 
   unfold handleFind; simp only []
   split; exact hi
   split
-  · exact nt_foldl _ (fun X i hX => nt_callLater _ _ _ rfl hX) _ _ (nt_draw _ _ _ hi)
+  · exact nt_foldl _ (fun X i hX => nt_callLater (X.logAnswer _ _ _) _ _ rfl hX) _ _ (nt_draw _ _ _ hi)
   · exact nt_foldl _ (fun X i hX => nt_callSoon X _ hX) _ _ hi
 
 theorem nt_expiredSub (s : Stack) (i : Nat) (a : Addr) (k : SubKey) (hi : NT s) : NT (s.expiredSub i a k) := by
